@@ -54,6 +54,9 @@ func LoadProgram(repo, tier string, env []string, overlay map[string][]byte) *Pr
 		acquireSlot()
 	}
 	plainVarCache = map[*ssa.Alloc]bool{} // do not retain previously loaded programs (selftest loads many)
+	c13EdgeCache = map[*Program]map[*ssa.Function][]*ssa.Function{}
+	c04BodyCache = map[*ssa.Function]*c04Body{}
+	c14ROMemo = map[c14LeakKey]int{}
 	t0 := time.Now()
 	os.Unsetenv("GOWORK")
 	cfg := &packages.Config{
